@@ -310,6 +310,45 @@ def scan_tables(F, rep, rule="C07.2"):
                 if msg is not None:
                     problems.append("(len=%d, k=%d, p=%d) with %s — one block past the size constant %d the scanner mentions: %s" % (m, k, p, pname, c, msg))
                 rows += 1
+    # ---- wide windows: a window of more p-mers than every small size constant the scanner mentions (ring sizes, slot counts; none on the
+    # pinned tree), with fixed score patterns — ascending (the minimizer is always the oldest p-mer: a rescan at every step), descending,
+    # all tied, and a short period with ties
+    if not problems:
+        for c in [c_ for c_ in size_thresholds(F, body, lo=7) if c_ <= 4096][-2:]:
+            p = 2
+            k = c + p + 1
+            m = k + c + 7
+            for pname, pat in (("ascending scores", lambda j: j), ("descending scores", lambda j, m=m: m - j), ("all scores equal", lambda j: 0),
+                               ("scores (7j mod 5)", lambda j: (7 * j) % 5)):
+                h = ScanOracles((), m, k, p, concrete_scores=pat)
+                it = Interp(F, False, h)
+                it.max_steps = 60 * m * (k + 8) + 1000000
+                mp0 = struct_of(F, MINPOS, {"val": Int(64, False, val=0), "pos": Int(64, False, val=0), "kmer": Opaque("P", {"pmer"}, {"at": None})})
+                me = struct_of(F, adt, {"seq": Ref(Cell(Opaque("V", {"seq"}), "seq")), "score": Opaque("F", {"score-fn"}), "k": Int(64, False, val=k), "_mp": mp0})
+                rep.evaluations += 1
+                try:
+                    out = it.call_body(body, [Ref(Cell(me, "self"))])
+                except (Undecided, Unsupported) as e:
+                    inc.append("(len=%d, k=%d, p=%d, %s): %s" % (m, k, p, pname, e))
+                    continue
+                except Diverge as e:
+                    problems.append("(len=%d, k=%d, p=%d, %s): scan diverges: %s" % (m, k, p, pname, e))
+                    continue
+                fn_ = [f["name"] for f in F.adts["msp::MspIntervalP"]["variants"][0]["fields"]]
+                try:
+                    ivs = []
+                    for e in out.elems:
+                        d = {n: e.fields[i] for i, n in enumerate(fn_)}
+                        ivs.append((d["start"].val, d["len"].val, d["minimizer_pos"].val, info_of(d["minimizer"]).get("at")))
+                except AttributeError:
+                    inc.append("(len=%d, %s): interval fields not concrete" % (m, pname))
+                    continue
+                sc = [pat(j) for j in range(m - p + 1)]
+                msg = check_partition(ivs, sc, m, k, p)
+                if msg is not None:
+                    problems.append("(len=%d, k=%d, p=%d) with %s — a window of %d p-mers, more than the size constant %d the scanner mentions: %s" % (
+                        m, k, p, pname, k - p + 1, c, msg))
+                rows += 1
     if problems:
         rep.violated(rule, "scan", "Scanner::scan: %s" % problems[0], site=F.site(body, body["line"]), witness={"kind": "row", "count": len(problems)})
     elif inc:
